@@ -8,6 +8,7 @@ import os
 import re
 import shutil
 import tempfile
+import zlib
 from fractions import Fraction
 from pathlib import Path
 
@@ -45,7 +46,17 @@ RULE = ("(1) strip_peptides vs the scanners: every string over {A,k,.,[,],(,),-}
         "OnDiskPsmDataset / read_pin, descs=[False] (model on negated scores), CONFIDENCE_CHUNK_SIZE in {1,2,3,5,7,n/2,"
         "n-1,n,n+1}, a second collection with its own prefix before or after the observed one, old result files / "
         "junk / an old level file in the destination directory, decoys=False, rng int / numpy integer, max_workers=3, "
-        "shuffled file order, fine / large / tiny score scales, other decoy prefixes. distinct = distinct case; "
+        "shuffled file order, fine / large / tiny score scales, other decoy prefixes; (4L) the runs of (4p) on input with "
+        "one, two or three extra rollup-level columns (ModifiedPeptide / Precursor / PeptideGroup as read_pin recognises "
+        "them: every non-empty subset; quick: five rotations of the kind list per subset, thorough: every assignment of "
+        "kinds; random ones on top), each column equal to the peptide column (same or renamed strings), finer (peptide + "
+        "charge, the PSMs of one peptide carry different charges), coarser (1..n/2 groups joining peptides of different "
+        "proteins, of targets and decoys), the plain sequence, or unrelated (drawn per PSM); 0, n/2, n or 2n further, worse "
+        "PSMs of peptides of the table on spectra of their own or (30%) on the spectrum of a better PSM, scattered "
+        "over the file; the level columns of a hand-built dataset in any order after the peptide column; Parquet for every "
+        "third case; deduplication=False (35%); file_root (20%); the second collection carries the same level columns - "
+        "the protein entries must be those of the PEPTIDE level (the rows of the case), whatever other levels exist. "
+        "distinct = distinct case; "
         "non-trivial = some peptide is "
         "written with flanks / modifications / lower-case marks or is unknown to the database (strip cases: a bracket, "
         "parenthesis, '.' or an all-lower-case string occurs). A case passes if model and real code agree AND the "
@@ -67,8 +78,10 @@ TRUSTED_EXTRA = [
     "Python `re` (oracle for the three substitutions; compared exhaustively with the scanners on short strings)",
     "DataFrame.sample(frac=1) (oracle: recorded row order = positions in the peptide table, which picked_protein relabels 0..n-1 whatever the caller's row labels are; contract: covers every retained row, no position twice)",
     "peptides.match_decoy (oracle: recorded decoy->target peptide table; target-only FASTA)",
-    "mokapot.read_pin / OnDiskPsmDataset and the PSM / peptide levels of assign_confidence (C10, C03): the confidence stream only "
-    "feeds one PSM per peptide string and spectrum",
+    "mokapot.read_pin / OnDiskPsmDataset and the PSM / peptide levels of assign_confidence (C10, C03): the confidence streams feed "
+    "one PSM per peptide string and spectrum; the extra-level stream adds PSMs that score below the row of their peptide and below "
+    "the PSM whose spectrum they share, so that the peptide level (best PSM per peptide string among the PSMs that keep their "
+    "spectrum) is the table of the case by construction - that roll-up itself is C03's",
 ]
 
 TOL = Fraction(1, 2 ** 23)
@@ -529,6 +542,186 @@ def _conf_case(rng, mode, wide, prefix=None, fasta=None):
     return c
 
 
+def _conf_presented(rng, k):
+    """a confidence case in a drawn presentation of the run (file format, reader, direction, chunk size, a second
+    collection, leftovers in the destination directory, decoys=False, rng argument, row order of the file, score
+    resolution, decoy prefix); None when the drawn table is empty"""
+    mode = ["mirror", "mirror", "regroup", "partial", "target-only"][k % 5]
+    prefix = rng.choice(PREFIXES) if rng.random() < 0.3 else None
+    c = _conf_case(rng, mode, wide=(k % 3 != 2), prefix=prefix)
+    n = len(c["rows"])
+    if n == 0:          # a collection without any PSM never reaches the protein level (C03 / C19)
+        return None
+    p = {}
+    if rng.random() < 0.12:
+        p["fmt"] = "parquet"
+    if rng.random() < 0.4:
+        p["via"] = "read_pin"
+    if rng.random() < 0.3:
+        p["desc"] = False
+    if rng.random() < 0.5:
+        p["chunk"] = max(1, rng.choice([1, 2, 3, 5, 7, n - 1, n, n + 1, n // 2]))
+    if rng.random() < 0.3:
+        o = _conf_case(rng, mode, wide=True, fasta=(c["fasta"], c["fasta_args"]))
+        # the other collection must be accepted (its failure would abort the whole call): known peptides only,
+        # at least one of them unique
+        P = _proteins(c)
+        known = set(P.peptide_map) | set(P.shared_peptides)
+        orows = [r for r in o["rows"] if r[3] in known or (not r[0] and not P.has_decoys)]
+        which = rng.choice([0, 1])
+        if any(r[3] in P.peptide_map for r in orows):
+            p["other"], p["which"] = orows, which
+    if rng.random() < 0.3:
+        p["leftover"] = rng.choice(["results", "junk", "table"])
+    if rng.random() < 0.25:
+        p["decoys"] = False
+    if rng.random() < 0.3:
+        p["rng"] = rng.choice(["int", "npint"])
+    if rng.random() < 0.3:
+        p["smap"] = rng.choice([[-17, 1024], [20, 0], [-40, 0], [0, -5000]])
+    if rng.random() < 0.2:
+        p["workers"] = 3
+    if rng.random() < 0.5:
+        rng.shuffle(c["rows"])
+        c["tags"].append("file-order-shuffled")
+    if p:
+        c["pres"] = p
+    c["tags"] += ["presented"] + ["%s=%s" % (f, p[f]) for f in ("fmt", "via", "desc", "leftover", "decoys", "rng", "workers") if f in p] \
+        + (["chunked"] if "chunk" in p else []) + (["two-collections"] if "other" in p else []) \
+        + (["score-map"] if "smap" in p else []) + (["prefix-other"] if prefix else [])
+    return c
+
+
+# ----------------------------------------------------------------------------- extra rollup levels (round 4)
+# read_pin recognises these columns (any spelling of the case) and appends them to the dataset's level_columns after
+# the peptide column, in this order; assign_confidence writes one level file per level column and then the protein
+# level, which the property computes from the retained unique peptides = the PEPTIDE level, whatever else exists.
+LEVEL_COLS = ["ModifiedPeptide", "Precursor", "PeptideGroup"]
+# how the values of a level column relate to the peptide strings of the table:
+#   equal     one value per peptide string (the string itself or a renaming of it)
+#   finer     peptide string + charge; the PSMs of one peptide carry different charges (the level splits a peptide)
+#   coarser   a few groups, each joining peptides of different proteins (of both kinds, of several pairs)
+#   sequence  the plain sequence: joins the differently decorated forms of one sequence (coarser, within a protein)
+#   unrelated drawn per PSM: cuts across peptides and proteins
+#   explicit  a given map peptide string -> value (corpus cases)
+LEVEL_KINDS = ["equal", "finer", "coarser", "sequence", "unrelated"]
+
+
+def _h(*parts):
+    return zlib.crc32("\x1f".join(str(x) for x in parts).encode())
+
+
+def _level_value(spec, seed, text, plain, occ):
+    """value of the level column `spec` = [column, kind, parameter] for the occ-th PSM (0 = the best one) of the
+    peptide string `text`: a pure function, so that dropping rows while shrinking keeps the other values"""
+    col, kind, par = spec
+    if kind == "equal":
+        return text if _h(seed, col) % 2 else "m:" + text
+    if kind == "finer":
+        return "%s/%d" % (text, 2 + (_h(seed, col, text) + occ) % 3)
+    if kind == "coarser":
+        return "%s%d" % (col[:2].lower(), _h(seed, col, text) % max(1, int(par)))
+    if kind == "sequence":
+        return plain
+    if kind == "unrelated":
+        return "u%d" % (_h(seed, col, text, occ) % max(1, int(par)))
+    if kind == "explicit":
+        return str(par.get(text, text))
+    raise ValueError(kind)
+
+
+def _level_order(p):
+    """the extra level columns in the order of the dataset's level_columns (after the peptide column): read_pin puts
+    them in its own fixed order, a hand-built dataset keeps the caller's"""
+    lv = p.get("levels") or []
+    if p.get("via", "ondisk") == "read_pin" or p.get("fmt") == "parquet":
+        return sorted(lv, key=lambda s: LEVEL_COLS.index(s[0]))
+    return lv
+
+
+def _add_levels(rng, c, specs, npsm, dedup=None, root=None):
+    """extra level columns, npsm further (worse) PSMs of peptides of the table, deduplication / file_root options"""
+    p = c.setdefault("pres", {})
+    rows = c["rows"]
+    p["levels"] = [list(s) for s in specs]
+    p["lseed"] = rng.randrange(1 << 16)
+    sign = -1 if p.get("desc") is False else 1          # the score map is increasing: ranking = sign * canonical value
+    used = {r[2] for r in rows}
+    extras = []
+    for _ in range(npsm):
+        r = rng.choice(rows)
+        v = r[2] - sign * rng.randint(1, 400) / 8
+        while v in used:
+            v -= sign * 0.125
+        used.add(v)
+        # its spectrum: its own, or (30%) the spectrum of a better PSM - it then loses the competition for the
+        # spectrum when deduplication is on and stays a PSM of its own when it is off; never the best of its peptide
+        better = [q[1] for q in rows if sign * q[2] > sign * v]
+        extras.append([r[1], v, rng.choice(better) if rng.random() < 0.3 else None])
+    if extras:
+        p["psms"] = extras
+        if rng.random() < 0.7:
+            p["mix"] = rng.randrange(1 << 16)          # PSMs of one peptide scattered over the file
+    # a tiny chunk size on a long PSM file with several level files costs seconds and is the business of (4p) / C03
+    total = len(rows) + len(extras)
+    if p.get("chunk") and p["chunk"] < total // 5:
+        p["chunk"] = total // 5 + 1
+    if dedup is False:
+        p["dedup"] = False
+    if root:
+        p["root"] = root
+    order = _level_order(p)
+    c["tags"] += ["levels=%d" % len(specs)] + ["level:%s=%s" % (s[0], s[1]) for s in specs] \
+        + ["last-level=%s:%s" % (order[-1][0], order[-1][1])] + (["several-psms-per-peptide"] if extras else []) \
+        + (["shared-spectra"] if any(e[2] for e in extras) else []) + (["dedup=False"] if dedup is False else []) \
+        + (["file-root"] if root else [])
+    return c
+
+
+def _gen_conf_levels(ctx):
+    """(4L) assign_confidence(proteins=...) on input with extra rollup levels.  Systematic part: every non-empty
+    subset of the three level columns x kinds (quick: five rotations of the kind list per subset, so that every
+    column takes every kind and every kind is the last level; thorough: every assignment of kinds); random part on
+    top.  Every case is a drawn presentation of the run as in (4p); Parquet is forced for every third case."""
+    rng = ctx.sub("confidence-levels")
+    subsets = [list(s) for n in (1, 2, 3) for s in itertools.combinations(LEVEL_COLS, n)]
+    plans = []
+    for sub in subsets:
+        if ctx.thorough:
+            plans += [list(zip(sub, kinds)) for kinds in itertools.product(LEVEL_KINDS, repeat=len(sub))]
+        else:
+            plans += [[(col, LEVEL_KINDS[(rot + 2 * j) % 5]) for j, col in enumerate(sub)] for rot in range(5)]
+    for _ in range(85 if ctx.thorough else 5):
+        sub = rng.choice(subsets)
+        plans.append([(col, rng.choice(LEVEL_KINDS + ["coarser", "unrelated"])) for col in sub])
+    out = []
+    k = 0
+    for plan in plans:
+        c = None
+        while c is None or len(c["rows"]) < 4:
+            c = _conf_presented(rng, k)
+            k += 1
+        p = c.setdefault("pres", {})
+        if len(out) % 3 == 0:
+            if "fmt" not in p:
+                c["tags"].append("fmt=parquet")
+            p["fmt"] = "parquet"
+        n = len(c["rows"])
+        specs = []
+        for col, kind in plan:
+            par = rng.choice([1, 2, 3, 3, max(2, n // 3), max(2, n // 2)]) if kind in ("coarser", "unrelated") else 0
+            specs.append([col, kind, par])
+        rng.shuffle(specs)              # order of level_columns of a hand-built dataset; read_pin has its own
+        npsm = rng.choice([0, 0, n // 2, n, 2 * n])
+        if any(kd == "finer" for _, kd in plan) and npsm == 0:
+            npsm = n                    # a finer level only differs from the peptide level with several PSMs per peptide
+        _add_levels(rng, c, specs, npsm, dedup=False if rng.random() < 0.35 else None,
+                    root="run1." if rng.random() < 0.2 else None)
+        c["tags"].append("extra-levels")
+        out.append(c)
+    return out
+
+
 def gen(ctx):
     cases = []
     # ---- strip columns as cases (the exhaustive part runs in extra_checks)
@@ -645,50 +838,13 @@ def gen(ctx):
     # score resolution, decoy prefix)
     rng = ctx.sub("confidence-presented")
     for k in range(320 if ctx.thorough else 100):
-        mode = ["mirror", "mirror", "regroup", "partial", "target-only"][k % 5]
-        prefix = rng.choice(PREFIXES) if rng.random() < 0.3 else None
-        c = _conf_case(rng, mode, wide=(k % 3 != 2), prefix=prefix)
-        n = len(c["rows"])
-        if n == 0:          # a collection without any PSM never reaches the protein level (C03 / C19)
-            continue
-        p = {}
-        if rng.random() < 0.12:
-            p["fmt"] = "parquet"
-        if rng.random() < 0.4:
-            p["via"] = "read_pin"
-        if rng.random() < 0.3:
-            p["desc"] = False
-        if rng.random() < 0.5:
-            p["chunk"] = max(1, rng.choice([1, 2, 3, 5, 7, n - 1, n, n + 1, n // 2]))
-        if rng.random() < 0.3:
-            o = _conf_case(rng, mode, wide=True, fasta=(c["fasta"], c["fasta_args"]))
-            # the other collection must be accepted (its failure would abort the whole call): known peptides only,
-            # at least one of them unique
-            P = _proteins(c)
-            known = set(P.peptide_map) | set(P.shared_peptides)
-            orows = [r for r in o["rows"] if r[3] in known or (not r[0] and not P.has_decoys)]
-            which = rng.choice([0, 1])
-            if any(r[3] in P.peptide_map for r in orows):
-                p["other"], p["which"] = orows, which
-        if rng.random() < 0.3:
-            p["leftover"] = rng.choice(["results", "junk", "table"])
-        if rng.random() < 0.25:
-            p["decoys"] = False
-        if rng.random() < 0.3:
-            p["rng"] = rng.choice(["int", "npint"])
-        if rng.random() < 0.3:
-            p["smap"] = rng.choice([[-17, 1024], [20, 0], [-40, 0], [0, -5000]])
-        if rng.random() < 0.2:
-            p["workers"] = 3
-        if rng.random() < 0.5:
-            rng.shuffle(c["rows"])
-            c["tags"].append("file-order-shuffled")
-        if p:
-            c["pres"] = p
-        c["tags"] += ["presented"] + ["%s=%s" % (f, p[f]) for f in ("fmt", "via", "desc", "leftover", "decoys", "rng", "workers") if f in p] \
-            + (["chunked"] if "chunk" in p else []) + (["two-collections"] if "other" in p else []) \
-            + (["score-map"] if "smap" in p else []) + (["prefix-other"] if prefix else [])
-        cases.append(c)
+        c = _conf_presented(rng, k)
+        if c is not None:
+            cases.append(c)
+    # round 4: the same runs on input with one, two or three extra rollup-level columns (ModifiedPeptide / Precursor /
+    # PeptideGroup, each finer than, equal to, coarser than or unrelated to the peptide column), several PSMs per
+    # peptide, deduplication=False, a file_root: the protein level must still be computed from the peptide level
+    cases.extend(_gen_conf_levels(ctx))
     return cases
 
 
@@ -941,13 +1097,43 @@ def _run_picked(c):
     return out
 
 
-def _conf_table(rows, scores, tag):
+def _conf_psms(rows, scores, p, observed):
+    """the PSMs of one collection in file order: [flag, peptide text, plain sequence, score as passed, occurrence
+    number within its peptide (0 = best), spectrum number].  Without the round-4 facets: one PSM per row, in row order.
+    pres['psms'] = [peptide text, canonical score, peptide text of the PSM whose spectrum it shares | None]: further PSMs
+    of peptides of the observed table, each worse than the row of its peptide (so the peptide level stays c['rows'])"""
+    recs = [[bool(r[0]), r[1], r[3], s, 0, j] for j, (r, s) in enumerate(zip(rows, scores))]
+    if observed and p.get("psms"):
+        k, off = p.get("smap", [0, 0])
+        f = Fraction(2) ** k
+        pos = {r[1]: j for j, r in enumerate(rows)}
+        occ = {}
+        for text, v, share in p["psms"]:
+            if text not in pos:         # its peptide was dropped while shrinking
+                continue
+            j = pos[text]
+            occ[text] = occ.get(text, 0) + 1
+            recs.append([bool(rows[j][0]), text, rows[j][3], Fraction(v) * f + off, occ[text],
+                         pos[share] if share in pos else len(recs)])
+        if p.get("mix") is not None:
+            import random
+            random.Random(p["mix"]).shuffle(recs)
+    return recs
+
+
+def _conf_table(rows, scores, tag, p=None, observed=True):
     import pandas as pd
-    n = len(rows)
-    return pd.DataFrame({"SpecId": ["%sid%d" % (tag, j) for j in range(n)], "Label": [1 if r[0] else -1 for r in rows],
-                         "ScanNr": list(range(1, n + 1)), "ExpMass": [100.0 + j for j in range(n)],
-                         "Peptide": [r[1] for r in rows], "Proteins": ["x"] * n,
-                         "feat": [float(v) for v in scores]})
+    p = p or {}
+    recs = _conf_psms(rows, scores, p, observed)
+    n = len(recs)
+    cols = {"SpecId": ["%sid%d" % (tag, j) for j in range(n)], "Label": [1 if r[0] else -1 for r in recs],
+            "ScanNr": [r[5] + 1 for r in recs], "ExpMass": [100.0 + r[5] for r in recs],
+            "Peptide": [r[1] for r in recs]}
+    for spec in p.get("levels") or []:
+        cols[spec[0]] = [_level_value(spec, p.get("lseed", 0), r[1], r[2], r[4]) for r in recs]
+    cols["Proteins"] = ["x"] * n
+    cols["feat"] = [float(r[3]) for r in recs]
+    return pd.DataFrame(cols), [r[3] for r in recs]
 
 
 def _snap(x, ps):
@@ -995,18 +1181,26 @@ def _run_confidence(c):
     # PEPs are outside C15 and the spline fit refuses tables this small: constant stub
     mconf.peps_from_scores = lambda scores, targets, *a, **k: np.full(len(scores), 0.5)
     left = p.get("leftover")
+    root = p.get("root") or ""
+    more = {}
+    if p.get("dedup") is False:
+        more["deduplication"] = False
+    if root:
+        more["file_root"] = root
     if left:
-        pre = (prefixes[observed] + ".") if prefixes[observed] else ""
+        pre = root + ((prefixes[observed] + ".") if prefixes[observed] else "")
         head = "mokapot protein group\tbest peptide\tstripped sequence\tscore\tq-value\tposterior_error_prob\n"
         for nm in ("targets.proteins", "decoys.proteins"):
             (out_dir / (pre + nm)).write_text(head + "OLDPROT\tK.OLDPEPK.A\tOLDPEPK\t99999.0\t0.0\t0.0\n" if left != "junk" else "junk\n")
-        (out_dir / ("proteins" + (".parquet" if fmt == "parquet" else ".pin"))).write_text(
+        (out_dir / (root + "proteins" + (".parquet" if fmt == "parquet" else ".pin"))).write_text(
             "junk\n" if left != "table" else "PSMId\tLabel\tpeptide\tproteinIds\tscore\nold\tTrue\tK.OLDPEPK.A\tx\t99999.0\n")
     with _Record() as rec:
         def go():
-            dss = []
+            dss, file_scores = [], []
+            lcols = [sp[0] for sp in _level_order(p)]
             for j, (rws, sc, tag) in enumerate(colls):
-                df = _conf_table(rws, sc, tag)
+                df, sc_file = _conf_table(rws, sc, tag, p, j == observed)
+                file_scores.append(np.array([float(v) for v in sc_file], dtype=float))
                 path = d / ("in%d%s" % (j, ".parquet" if fmt == "parquet" else ".pin"))
                 if fmt == "parquet":
                     df.to_parquet(path, index=False)
@@ -1017,19 +1211,20 @@ def _run_confidence(c):
                 else:
                     ds = OnDiskPsmDataset(path, columns=list(df.columns), target_column="Label", spectrum_columns=["ScanNr", "ExpMass"],
                                           peptide_column="Peptide", protein_column="Proteins", feature_columns=["feat"],
-                                          metadata_columns=["SpecId", "Label", "ScanNr", "ExpMass", "Peptide", "Proteins"],
-                                          metadata_column_types=["string", "int", "int", "float", "string", "string"],
-                                          level_columns=["Peptide"], filename_column=None, scan_column=None,
+                                          metadata_columns=["SpecId", "Label", "ScanNr", "ExpMass", "Peptide", "Proteins"] + lcols,
+                                          metadata_column_types=["string", "int", "int", "float", "string", "string"]
+                                          + ["string"] * len(lcols),
+                                          level_columns=["Peptide"] + lcols, filename_column=None, scan_column=None,
                                           specId_column="SpecId", calcmass_column=None, expmass_column=None, rt_column=None,
                                           charge_column=None, spectra_dataframe=df[["ScanNr", "ExpMass", "Label"]])
                 dss.append(ds)
             with brewlib.Chunking(confidence=p.get("chunk")):
-                assign_confidence(dss, scores=[np.array([float(v) for v in sc], dtype=float) for _, sc, _ in colls],
+                assign_confidence(dss, scores=file_scores,
                                   descs=[sign == 1] * len(colls), dest_dir=out_dir, prefixes=prefixes,
                                   decoys=p.get("decoys", True), proteins=P, rng=_rng_arg(p.get("rng"), c["seed"]),
-                                  peps_error=False, max_workers=p.get("workers", 1))
+                                  peps_error=False, max_workers=p.get("workers", 1), **more)
             ent = []
-            pre = (prefixes[observed] + ".") if prefixes[observed] else ""
+            pre = root + ((prefixes[observed] + ".") if prefixes[observed] else "")
             files = [("targets.proteins", True)] + ([("decoys.proteins", False)] if p.get("decoys", True) else [])
             for nm, tflag in files:
                 t = pd.read_csv(out_dir / (pre + nm), sep="\t", keep_default_na=False)
@@ -1334,7 +1529,29 @@ def shrink(c):
         q = {k: v for k, v in p.items() if k != f}
         if f == "extra" and "order" in q:
             del q["order"]
+        if f == "desc":                 # the further PSMs are worse than the row of their peptide in ONE direction only
+            q.pop("psms", None)
+        if f == "psms":
+            q.pop("mix", None)
+        if f == "lseed" and not p.get("levels"):
+            continue
         yield dict(c, pres=q) if q else {k: v for k, v in c.items() if k != "pres"}
+    # extra levels one at a time, then towards the plainest kind; further PSMs one at a time
+    lv = p.get("levels") or []
+    if len(lv) > 1:
+        for j in range(len(lv)):
+            yield dict(c, pres=dict(p, levels=lv[:j] + lv[j + 1:]))
+    ex = p.get("psms") or []
+    if len(ex) > 1:
+        yield dict(c, pres=dict(p, psms=ex[: len(ex) // 2]))
+        yield dict(c, pres=dict(p, psms=ex[len(ex) // 2:]))
+        if len(ex) <= 12:
+            for j in range(len(ex)):
+                yield dict(c, pres=dict(p, psms=ex[:j] + ex[j + 1:]))
+    for j, e in enumerate(ex):
+        if e[2] is not None:
+            yield dict(c, pres=dict(p, psms=ex[:j] + [[e[0], e[1], None]] + ex[j + 1:]))
+            break
     rows = c["rows"]
     sd = p.get("sdtype", "float64")
     for j in range(len(rows)):
